@@ -1194,6 +1194,8 @@ class ContactHandler(Messenger, dbus.service.Object):
         self._rx_bundles = []
         # Names of pending RX bundles
         self._rx_map = {}
+        # Set after the peer SESS_TERM is received
+        self._term_recv = False
 
         # Bind to parent class
         self.set_on_state_change(self.session_state_changed)
@@ -1245,12 +1247,13 @@ class ContactHandler(Messenger, dbus.service.Object):
 
     def _check_sess_term(self):
         ''' Perform post-termination logic. '''
-        if self._in_term and self.is_sess_idle():
+        if self._in_term and self._term_recv and self.is_sess_idle():
             self._logger.info('Closing in terminating state')
             self.close()
 
     def recv_sess_term(self, reason):
         Messenger.recv_sess_term(self, reason)
+        self._term_recv = True
 
         # No further processing
         self._tx_flush_pend_start()
